@@ -638,14 +638,25 @@ class C06(Check):
                 "Pox.C06.not_early", "Pox.C06.wake_is_registered", "Pox.C06.isolation", "Pox.C06.finished_never_runs",
                 "Pox.C06.again_return", "Pox.C06.delivery", "Pox.C06.fair_partial", "Pox.C06.timer", "Pox.C06.timer_stopped",
                 "Pox.C06.again_empty_defect", "Pox.C06.send_zero_defect"]
-    # function bodies only (a `def` line executes at import time, not during a run)
-    anchors = [("pox/lib/recoco/recoco.py", a, b) for a, b in [(95, 111), (272, 279), (282, 282), (285, 295), (302, 352), (439, 439), (449, 450), (453, 460), (550, 561), (576, 579), (583, 593), (596, 598), (619, 624), (628, 658), (661, 664), (669, 701), (713, 714), (717, 733), (813, 820), (826, 829), (847, 927), (931, 936), (942, 942), (949, 950), (954, 955), (1044, 1061), (1064, 1068), (1071, 1071), (1074, 1081)]]
+    # function bodies only (a `def` line executes at import time, not during a run); located by name in setup()
+    ANCHOR_FUNCS = [("BaseTask", "execute"), ("Scheduler", "fast_schedule"), ("Scheduler", "quit"), ("Scheduler", "run"), ("Scheduler", "cycle"),
+                    ("Exit", "execute"), ("Sleep", "__init__"), ("Sleep", "execute"), ("Select", "__init__"), ("Select", "execute"),
+                    ("Recv", "__init__"), ("Recv", "_recvReturnFunc"), ("Recv", "execute"), ("Send", "__init__"), ("Send", "_sendReturnFunc"),
+                    ("Send", "execute"), ("AgainTask", "run_again"), ("Again", "__init__"), ("Again", "execute"), ("SelectHub", "idle"),
+                    ("SelectHub", "break_idle"), ("SelectHub", "_threadProc"), ("SelectHub", "_select"), ("SelectHub", "registerSelect"),
+                    ("SelectHub", "_cycle"), ("SelectHub", "registerTimer"), ("SelectHub", "_return"), ("Timer", "__init__"), ("Timer", "start"),
+                    ("Timer", "cancel"), ("Timer", "run")]
+    anchors = []
     coverage_cases = 2500
     trusted_base = ["model Model/Recoco.lean hand-written from recoco.py (Scheduler.cycle/run, BaseTask.execute, SelectHub._select, "
                     "Sleep/Select/Recv/Send/Exit/Again/AgainTask/Timer); tied to the code by this correspondence run only",
                     "harness: virtual clock, virtual select (same definition as the model's vselect), scripted sockets, instrumented task bodies",
-                    "the observation fields Task.wake / St.trace of the model are compared with the harness's own bookkeeping on every case"]
-    assumptions = ["single scheduler thread with the inline select hub (threaded_selecthub=False); the threaded hub and CallBlocking threads are C07's",
+                    "the observation fields Task.wake / St.trace of the model are compared with the harness's own bookkeeping on every case",
+                    "threaded tier: harness/forcedthreads.py (forced thread scheduler, replaced Event/Queue/Pinger/Lock/Thread) plus this module's "
+                    "virtual-time select/Event.wait wrappers and time-advance policy (time moves only when no thread can run; select(...,0) polls)"]
+    assumptions = ["inline tier: single scheduler thread with the inline select hub (threaded_selecthub=False)",
+                   "threaded tier: scheduler thread + hub thread switch only at operations of the synchronisation primitives "
+                   "(Event, Queue, pinger, select, Lock) - finer-grained races between plain statements are C07's; CallBlocking threads are not run",
                    "select honours its timeout and reports every ready descriptor (virtual select: level-triggered scripted readiness)",
                    "task programs are over the yield vocabulary of the model; tasks do not call scheduler methods themselves; no task yields None",
                    "times are multiples of 1/8 s, so float comparisons in the code agree with the model's integer comparisons",
@@ -654,23 +665,34 @@ class C06(Check):
     technique = ("Lean 4 proof (invariants over all reachable states of a small-step model of the scheduler: placement, program order, "
                  "wake-time accounting, timer records vs. firings; one-cycle theorems for isolation and sub-task return; frame lemmas for "
                  "'finished tasks never run again' and round-robin order) + differential correspondence of the compiled "
-                 "model against the real Scheduler.run() under a virtual clock/select + independent property oracle on the real code's trace")
+                 "model against the real Scheduler.run() under a virtual clock/select (inline hub: whole run; threaded hub under a forced "
+                 "thread scheduler: per-task projections) + independent property oracle on the real code's trace in both hub modes")
     level_text = ("Theorems single_place/caller_blocked/no_overlap/program_order/step_once/not_early/wake_is_registered/finished_never_runs/"
                   "timer/timer_stopped hold for every program table, task set, timer set, readiness script and number of loop iterations "
                   "(unbounded); isolation/again_return/delivery are exact one-cycle statements for every state; fair_partial is the exact "
-                  "round-robin bound for program tables without sub-task calls.  The model is hand-written; each run re-checks it against the real scheduler on "
-                  "exhaustive small scopes plus random programs, comparing the full trace (task, step, virtual time, value/exception received, "
-                  "wake time), timer firings, cycle count and final queues.")
-    level_note = ("Proved about the model, tested for the code: the tie is the differential run.  Out of scope here: the threaded select hub, real "
-                  "file descriptors (EpollSelect is only compared with select.select on pipes, as plain differential testing), CallBlocking "
-                  "worker threads, locks (C07), the priority<1 lottery.  Not proved (only checked by the oracle on the real code): fairness in "
-                  "the presence of sub-task calls (fair_full is false without a call-depth bound), that a timer's firing time is >= its due time "
-                  "(follows informally from not_early on the timer task's step), liveness ('eventually'), absence of scheduler-internal "
-                  "assertion failures/KeyErrors (the model keeps them as a `crashed` flag; never observed in any run).  Inline-mode fact worth "
-                  "knowing: the hub is polled only when the ready deque is empty, so a task that always yields 0 starves all timed waiters.")
-    rule = ("case = (program table over the yield vocabulary, task list, timers, fd readiness times, socket scripts, start time, cycle budget); "
-            "corpus = 13 hand-written scenarios + exhaustive scopes (every assignment of programs of <= L yields over an alphabet to N ordered tasks); "
-            "non-trivial = the real run contains a timed resume, a sub-task step or a timer firing")
+                  "round-robin bound for program tables without sub-task calls.  The model is hand-written (inline hub); each run re-checks it "
+                  "against the real scheduler on exhaustive small scopes plus random programs, comparing the full trace (task, step, virtual "
+                  "time, value/exception received, wake time), timer firings, cycle count and final queues.  Threaded hub: the same task "
+                  "programs run on Scheduler(threaded_selecthub=True) with the scheduler thread and the hub thread under the forced thread "
+                  "scheduler (sequential, random and PCT schedules, virtual time); the property oracle judges every run, and for program "
+                  "tables whose outcome cannot depend on the interleaving (no Exit, cancel, scripted sockets or contended descriptors) each "
+                  "task's own sequence of (step, time, value/exception received, wake time) and each timer's firing times must equal the "
+                  "model's.")
+    level_note = ("Proved about the model (inline hub), tested for the code: the tie is the differential run.  The threaded hub is covered "
+                  "by testing only: the hub's bookkeeping (_select, registerSelect, _return) is the same code in both modes and the theorems "
+                  "are about that code's model, but the interleavings of the two threads are sampled (a few schedules per program, switches "
+                  "at synchronisation operations only), not proved; what is compared there is the per-task projection, not the global order.  "
+                  "Out of scope: real file descriptors (EpollSelect is only compared with select.select on pipes, as plain differential "
+                  "testing), CallBlocking worker threads, locks and statement-level races (C07), the priority<1 lottery.  Not proved (only "
+                  "checked by the oracle on the real code): fairness in the presence of sub-task calls (fair_full is false without a "
+                  "call-depth bound), that a timer's firing time is >= its due time (follows informally from not_early on the timer task's "
+                  "step), liveness ('eventually'), absence of scheduler-internal assertion failures/KeyErrors (the model keeps them as a "
+                  "`crashed` flag; never observed in any run).  Inline-mode fact worth knowing: the hub is polled only when the ready deque "
+                  "is empty, so a task that always yields 0 starves all timed waiters.")
+    rule = ("case = (program table over the yield vocabulary, task list, timers, fd readiness times, socket scripts, start time, cycle budget"
+            "[, mode=threaded + schedule (sequential|random|PCT, seed)]); corpus = 13 hand-written scenarios + exhaustive scopes (every "
+            "assignment of programs of <= L yields over an alphabet to N ordered tasks) + the threaded scenarios x 6 schedules + two threaded "
+            "3-task scopes; non-trivial = the real run contains a timed resume, a sub-task step or a timer firing")
 
     def setup(self):
         import logging
@@ -681,6 +703,18 @@ class C06(Check):
         import pox.lib.recoco.recoco as recoco
         self.rc = recoco
         self._last = (None, None)
+        import ast
+        rel = "pox/lib/recoco/recoco.py"
+        tree = ast.parse(open(os.path.join(common.REPO, rel)).read())
+        want = set(self.ANCHOR_FUNCS); anchors = []
+        for cls in tree.body:
+            if isinstance(cls, ast.ClassDef):
+                for f in cls.body:
+                    if isinstance(f, ast.FunctionDef) and (cls.name, f.name) in want:
+                        body = f.body[1:] if (isinstance(f.body[0], ast.Expr) and isinstance(getattr(f.body[0], "value", None), ast.Constant)
+                                              and len(f.body) > 1) else f.body
+                        anchors.append((rel, body[0].lineno, f.end_lineno))
+        self.anchors = anchors
 
     # -- cases
     def corpus(self):
